@@ -2,6 +2,7 @@
 
 from typing import Any, Callable, Mapping, Optional, Sequence, Type, cast
 
+from ..exc import InvalidOperationError
 from ..lang import ast as _ast
 from ..schema import Schema
 from ..utilities import coerce_variable_values
@@ -72,7 +73,7 @@ def execute(
         Execution result. Exact type dependent on the runtime.
 
     Raises:
-        RuntimeError: on invalid operation.
+        InvalidOperationError: on invalid operation.
     """
     instrumentation = (
         Instrumentation() if instrumentation is None else instrumentation
@@ -102,7 +103,9 @@ def execute(
     elif operation.operation == "mutation":
         exe_fn = executor.execute_fields_serially
     elif operation.operation == "subscription":
-        raise RuntimeError(
+        # An operation which cannot be executed here is a response error for
+        # the entry points, like an unknown operation name.
+        raise InvalidOperationError(
             "`execute` does not support subscriptions, "
             "use the `subscribe` helper."
         )
